@@ -37,6 +37,7 @@ class FCtx(object):
         self.events = self.ex.events
         self.inlined = list(self.ex.inlined)
         # spelling-independent forms (string building, sort keys) for every term the rules look at
+        self._fold_local_dicts()
         # Event.raw/raw_target/raw_guards keep the gated (path-sensitive) merges of if statements for T.select(); the default
         # view has them flattened to phi
         for ev in self.events:
@@ -144,6 +145,122 @@ class FCtx(object):
             ev.guards = tuple((T.subst(g[0], fn), g[1]) for g in ev.guards)
             ev.raw_guards = tuple((T.subst(g[0], fn), g[1]) for g in ev.raw_guards)
         self.ex.loop_guards = dict((k, tuple((T.subst(g[0], fn), g[1]) for g in v)) for k, v in self.ex.loop_guards.items())
+
+    def _fold_local_dicts(self):
+        """lookups with a literal key in a local dict that starts as a constant table and is only ever changed by
+        ``d[<literal>] = v`` stores: ``d.get(k)`` / ``d[k]`` become the value they denote (a conditional expression when the one
+        store of that key is conditional).  Any other use of the local (passed on, updated, iterated ...) leaves it alone."""
+        simple = (str, int, float, bool, type(None))
+        locs = {}
+        for ev in self.events:
+            for t in (ev.value, ev.target):
+                if t is None:
+                    continue
+                for x in T.walk(t):
+                    if x[0] == "local" and len(x) > 3 and isinstance(x[3], tuple) and x[3] and x[3][0] in ("call", "dict") \
+                            and x[1:3] not in locs:
+                        locs[x[1:3]] = x
+        for key, L in locs.items():
+            init = L[3]
+            if init[0] == "call" and init[1] == ("global", "dict") and len(init[2]) == 1 and not init[3]:
+                init = init[2][0]
+            elif init[0] == "call" and init[1][0] == "attr" and init[1][2] == "copy" and not init[2]:
+                init = init[1][1]
+            try:
+                table = self.const_of(init)
+            except Exception:
+                continue
+            if not isinstance(table, dict) or not all(isinstance(k, simple) for k in table):
+                continue
+            stores, ok = [], True
+
+            def is_L(x):
+                return x[0] == "local" and x[1:3] == key
+
+            def lookup(x):
+                if x[0] == "call" and x[1][0] == "attr" and x[1][2] == "get" and is_L(x[1][1]) and 1 <= len(x[2]) <= 2 \
+                        and not x[3] and x[2][0][0] == "const":
+                    return "get"
+                if x[0] == "sub" and is_L(x[1]) and x[2][0] == "const":
+                    return "sub"
+                if x[0] == "cmp" and x[1] in (("in",), ("not in",)) and is_L(x[2][1]) and x[2][0][0] == "const":
+                    return "in"
+                return None
+
+            def other_use(t, top=True):
+                """is the local used in ``t`` in any way but a literal-key lookup?"""
+                if lookup(t):
+                    return any(other_use(c, False) for c in (t[2] if t[0] == "call" else ()))
+                if is_L(t):
+                    return True
+                return any(other_use(c, False) for c in T.children(t))
+            for ev in self.events:
+                if ev.kind == "bind" and ev.value is not None and is_L(ev.value):
+                    continue        # the binding of the local itself
+                if ev.kind == "call" and ev.value == L[3]:
+                    continue
+                if ev.kind == "store" and ev.target is not None and lookup(ev.target) == "sub":
+                    stores.append(ev)
+                    if other_use(ev.value):
+                        ok = False
+                    continue
+                for t in [ev.value, ev.target] + [g[0] for g in ev.guards] + [l[1] for l in ev.loops]:
+                    if t is not None and other_use(t):
+                        ok = False
+            if not ok or any(st.loops for st in stores):
+                continue
+
+            def const_term(v):
+                return ("const", v) if isinstance(v, simple) else None
+
+            def make(seq):
+                def fn(x):
+                    how = lookup(x)
+                    if not how:
+                        return None
+                    k = (x[2][0] if how in ("get", "in") else x[2])[1]
+                    mine = [st for st in stores if st.target[2] == ("const", k)]
+                    if how == "in":
+                        if k in table or not mine:
+                            return ("const", (k in table) == (x[1] == ("in",)))
+                        if len(mine) == 1 and mine[0].seq < seq and all(g[0][0] != "exc" for g in mine[0].guards):
+                            # present exactly when the one store of that key was executed
+                            tests = tuple(g[0] if g[1] else ("unary", "not", g[0]) for g in mine[0].guards)
+                            t_ = ("const", True) if not tests else tests[0] if len(tests) == 1 else ("boolop", "and", tests)
+                            return t_ if x[1] == ("in",) else ("unary", "not", t_)
+                        return None
+                    if how == "get":
+                        base = const_term(table[k]) if k in table else (x[2][1] if len(x[2]) == 2 else ("const", None))
+                    else:
+                        base = const_term(table[k]) if k in table else None
+                    if not mine:
+                        return base
+                    if len(mine) != 1 or mine[0].seq >= seq:
+                        return None
+                    st = mine[0]
+                    if base is None:
+                        # d[k] for a key that only the one (conditional) store provides: the stored value, or a KeyError -
+                        # which is a refusal, never another value
+                        return st.value if all(g[0][0] != "exc" for g in st.guards) else None
+                    conds = [g for g in st.guards if g[0][0] != "exc"]
+                    if len(conds) != len(st.guards):
+                        return None
+                    if not conds:
+                        return st.value
+                    tests = tuple(g[0] if g[1] else ("unary", "not", g[0]) for g in conds)
+                    return ("ifexp", tests[0] if len(tests) == 1 else ("boolop", "and", tests), st.value, base)
+                return fn
+            for ev in self.events:
+                if ev in stores:
+                    continue
+                fn = make(ev.seq)
+                for fld in ("value", "target"):
+                    v = getattr(ev, fld)
+                    if v is not None:
+                        setattr(ev, fld, T.subst(v, fn))
+                ev.guards = tuple((T.subst(g[0], fn),) + tuple(g[1:]) for g in ev.guards)
+            self.ex.loop_guards = dict((k, tuple((T.subst(g[0], make(1 << 30)),) + tuple(g[1:]) for g in v))
+                                       for k, v in self.ex.loop_guards.items())
 
     def _alias_stored_locals(self):
         """``cell = self.table[key] = {}`` (or ``cell = {}; self.table[key] = cell``): from the store on, the local *is* the
@@ -979,6 +1096,17 @@ def active_at(ev, version):
     return True
 
 
+def pick_at_version(t, version):
+    """``t`` with every conditional whose test is decided by the format version replaced by the branch taken at ``version``"""
+    def pick(x):
+        if x[0] in ("ifexp", "gate"):
+            v = gate_term_value(x[1], version)
+            if v is not None:
+                return T.subst(x[2] if v else x[3], pick)
+        return None
+    return T.subst(t, pick)
+
+
 def non_gate_guards(ev):
     return [g for g in ev.guards if g[0][0] != "exc" and not is_pure_gate(g[0])]
 
@@ -1211,11 +1339,17 @@ def reader_reads(model, fref, in_index=1, version=None, inline=True, _depth=0):
                     reads[:] = [r for r in reads if r.ev is not reset[-1]]
                     reads.append(Read(attr, cx.norm(D), source_accesses(cx, D, IN), non_gate_guards(ev), ev.loops[:-1], ev, fref.qname))
                     continue
-            if val[0] == "ifexp":
-                # x = A if test else B   ==   if test: x = A  else: x = B
-                for branch, pol in ((val[2], True), (val[3], False)):
+            raw = getattr(ev, "raw", None)
+            if val[0] == "ifexp" or (raw is not None and raw[0] == "gate"):
+                # x = A if test else B   ==   if test: x = A  else: x = B   (and so is a value merged from two branches)
+                split = val if val[0] == "ifexp" else raw
+                test = T.degate(split[1])
+                for branch, pol in ((T.degate(split[2]), True), (T.degate(split[3]), False)):
+                    if version is not None and gate_term_value(test, version) not in (None, pol):
+                        continue
                     src = source_accesses(cx, branch, IN)
-                    reads.append(Read(attr, cx.norm(branch), src, non_gate_guards(ev) + [(val[1], pol)], ev.loops, ev, fref.qname))
+                    extra_g = [] if is_pure_gate(test) else [(test, pol)]
+                    reads.append(Read(attr, cx.norm(branch), src, non_gate_guards(ev) + extra_g, ev.loops, ev, fref.qname))
                 continue
             src = source_accesses(cx, val, IN)
             reads.append(Read(attr, cx.norm(val), src, non_gate_guards(ev), ev.loops, ev, fref.qname))
